@@ -191,6 +191,80 @@ Definition child_writable (c : catalog) (child : ctable) : bool :=
                     | Some p => is_key_of p (cat_indexes c) (sf_refcols f)
                     end) (ct_fks child).
 
+(* ---------- DROP TABLE under foreign_keys=ON: what the implicit DELETE compiles ----------
+   The implicit DELETE FROM the dropped table ignores foreign keys that do not resolve ("foreign key mismatch" is not raised
+   for it).  Every foreign key that references the table and does resolve contributes its ON DELETE action as a nested
+   statement: CASCADE a DELETE on the child, SET NULL / SET DEFAULT an UPDATE of the child columns.  Nested statements are
+   compiled like ordinary ones:
+     - a nested DELETE or UPDATE on T needs every foreign key that references T to resolve to a key of T;
+     - a nested DELETE on T needs every foreign key of T to find its parent table and key; a nested UPDATE needs that of the
+       foreign keys of T that use an updated column, and of the self-referencing ones;
+     - a nested DELETE fires the ON DELETE actions of the keys referencing T, a nested UPDATE the ON UPDATE actions of the
+       keys whose parent columns are updated.
+   Nothing here depends on rows: the refusal happens while the statement is prepared. *)
+Inductive nnode := NDel (t : string) | NUpd (t : string) (cols : list string).
+Definition nnode_eqb (a b : nnode) : bool :=
+  match a, b with
+  | NDel x, NDel y => ieq x y
+  | NUpd x cx, NUpd y cy => (ieq x y && list_eqb ieq cx cy)%bool
+  | _, _ => false
+  end.
+Definition fk_resolves (c : catalog) (f : sfk) : bool :=
+  match find_ctable (sf_table f) c with
+  | None => false
+  | Some p => is_key_of p (cat_indexes c) (sf_refcols f)
+  end.
+Definition refs_to (c : catalog) (t : string) : list (string * sfk) :=
+  flat_map (fun ch => map (fun f => (ct_name ch, f)) (filter (fun f => ieq (sf_table f) t) (ct_fks ch))) (cat_tables c).
+Definition nnode_ok (c : catalog) (n : nnode) : bool :=
+  match n with
+  | NDel t =>
+      match find_ctable t c with
+      | None => true
+      | Some tb => (child_writable c tb && forallb (fun cf => fk_resolves c (snd cf)) (refs_to c t))%bool
+      end
+  | NUpd t cols =>
+      match find_ctable t c with
+      | None => true
+      | Some tb =>
+          (forallb (fun f => implb (ieq (sf_table f) t || existsb (fun x => imem x cols) (sf_cols f)) (fk_resolves c f)) (ct_fks tb)
+           && forallb (fun cf => fk_resolves c (snd cf)) (refs_to c t))%bool
+      end
+  end.
+Definition delete_actions (c : catalog) (t : string) : list nnode :=
+  flat_map (fun cf => if fk_resolves c (snd cf) then
+                        match sf_on_delete (snd cf) with
+                        | Some Cascade => [NDel (fst cf)]
+                        | Some SetNull | Some SetDefault => [NUpd (fst cf) (sf_cols (snd cf))]
+                        | _ => []
+                        end
+                      else []) (refs_to c t).
+Definition nnode_next (c : catalog) (n : nnode) : list nnode :=
+  match n with
+  | NDel t => delete_actions c t
+  | NUpd t cols =>
+      flat_map (fun cf => if existsb (fun x => imem x cols) (sf_refcols (snd cf)) then
+                            match sf_on_update (snd cf) with
+                            | Some Cascade | Some SetNull | Some SetDefault => [NUpd (fst cf) (sf_cols (snd cf))]
+                            | _ => []
+                            end
+                          else []) (refs_to c t)
+  end.
+Fixpoint nested_compile (fuel : nat) (c : catalog) (todo seen : list nnode) : bool :=
+  match fuel with
+  | O => true
+  | S k =>
+      match todo with
+      | [] => true
+      | n :: rest =>
+          if existsb (nnode_eqb n) seen then nested_compile k c rest seen
+          else (nnode_ok c n && nested_compile k c (nnode_next c n ++ rest) (n :: seen))%bool
+      end
+  end.
+Definition drop_compiles (c : catalog) (name : string) : bool :=
+  let n := S (List.length (cat_tables c) + List.length (flat_map ct_fks (cat_tables c))) in
+  nested_compile (n * n) c (delete_actions c name) [].
+
 Definition ren (old new : string) (l : list string) : list string := map (fun x => if ieq x old then new else x) l.
 
 (* ---------- exec ---------- *)
@@ -202,12 +276,9 @@ Definition exec (fk_on : bool) (c : catalog) (st : stmt) : result catalog engine
       else Ok (mkCat (cat_tables c ++ [table_of_create name cols pks fks checks]) (cat_indexes c))
   | SDropTable name =>
       if has_ctable name c then
-        (* foreign_keys=ON: the implicit DELETE compiles the ON DELETE CASCADE action of every referencing table as a DELETE on
-           that table, which needs all of ITS parent tables to exist ("no such table: main.x") *)
-        if (fk_on && existsb (fun ch => (negb (ieq (ct_name ch) name)
-                                         && existsb (fun f => (ieq (sf_table f) name
-                                                               && match sf_on_delete f with Some Cascade => true | _ => false end)%bool) (ct_fks ch)
-                                         && existsb (fun f => negb (has_ctable (sf_table f) c)) (ct_fks ch))%bool) (cat_tables c))%bool
+        (* foreign_keys=ON: the implicit DELETE compiles the ON DELETE / ON UPDATE actions it can reach as nested statements;
+           a nested statement is refused when a foreign key it has to look at does not resolve *)
+        if (fk_on && negb (drop_compiles c name))%bool
         then Err (EForeignKey name) else
         Ok (mkCat (filter (fun t => negb (ieq (ct_name t) name)) (cat_tables c))
                   (filter (fun i => negb (ieq (ci_table i) name)) (cat_indexes c)))
